@@ -454,6 +454,9 @@ func refTables(handlerKind string, names []string, x xInfo) (res tri, shape stri
 		anyLoose := false
 		best := ""
 		for _, o := range occs {
+			if o.Virtual {
+				continue
+			}
 			if looselyListed(o, names) {
 				anyLoose = true
 			}
@@ -472,12 +475,26 @@ func refTables(handlerKind string, names []string, x xInfo) (res tri, shape stri
 		return unsure, ""
 	}
 	// allow: every table the statement uses must be listed
-	if len(occs) == 0 {
+	real := 0
+	for _, o := range occs {
+		if !o.Virtual {
+			real++
+		}
+	}
+	if real == 0 {
 		return unsure, "" // a statement that uses no table at all
 	}
 	allStrict, unlistedShape, firstUnsupported := true, "", ""
 	unlisted := false
 	for _, o := range occs {
+		if o.Virtual {
+			if o.Shape == "dual" {
+				allStrict = false // whether `dual` has to be listed is not asserted
+			} else if firstUnsupported == "" {
+				firstUnsupported = o.Shape
+			}
+			continue
+		}
 		if !strictlyListed(o, names) {
 			allStrict = false
 		}
